@@ -1,0 +1,462 @@
+//go:build verif
+
+// Contracts for property C04 (join family, nest/unnest, rank), read by /verif/engine (govc).
+// Comments only; compiled only with -tags verif. Vocabulary: /verif/specs/60_join.spec|.smt2.
+package rel
+
+// ---- valueProjector algebra (value_values.go) ---------------------------------------------------
+
+//@ func (valueProjector).compose(p; p2)
+//@   tags C04, C10
+//@   assigns fresh-only
+//@   requires[C04] inb: forall k in 0..len(p2) :: 0 <= p2[k] && p2[k] < len(p)
+//@   ensures[C04] len: len(result) == len(p2)
+//@   ensures[C04] def: forall k in 0..len(p2) :: result[k] == p[p2[k]]
+//@   ensures[C03] fr: fresh(result)
+//@   loop 0 invariant len: 0 <= $idx && $idx <= len(p2) && len(projected) == $idx && cap(projected) == len(p2) && fresh(projected)
+//@   loop 0 invariant def: forall k in 0..$idx :: projected[k] == p[p2[k]]
+
+//@ func (valueProjector).isIdentity(p; max)
+//@   tags C04, C10
+//@   pure
+//@   ensures[C04] def: result <==> (len(p) == max && forall k in 0..len(p) :: p[k] == k)
+//@   loop 0 invariant b: 0 <= i && i <= max
+//@   loop 0 invariant def: forall k in 0..i :: p[k] == k
+
+//@ func (valueProjector).isContiguous(p)
+//@   tags C04, C10
+//@   pure
+//@   ensures[C04] def: result <==> (forall k in 0..len(p)-1 :: p[k+1] == p[k] + 1)
+//@   ensures[C04] lin: result <==> (forall k in 0..len(p) :: p[k] == p[0] + k)
+//@   loop 0 invariant b: 0 <= i
+//@   loop 0 invariant def: forall k in 0..i :: p[k+1] == p[k] + 1
+//@   loop 0 invariant lin: forall k in 0..i+1 :: k < len(p) ==> p[k] == p[0] + k
+
+//@ func (valueProjector).EqualValueProjector(p; p2)
+//@   tags C04, C10
+//@   pure
+//@   ensures[C04] def: result <==> (len(p) == len(p2) && forall k in 0..len(p) :: p[k] == p2[k])
+//@   loop 0 invariant b: 0 <= i && i <= len(p)
+//@   loop 0 invariant def: forall k in 0..i :: p[k] == p2[k]
+
+//@ func createSetMap(numbers)
+//@   tags C04, C10
+//@   assigns fresh-only
+//@   ensures[C04] nn: result != nil
+//@   ensures[C04] def: forall x: Int :: has(result, x) <==> inProj(numbers, x)
+//@   loop 0 invariant b: 0 <= $idx && $idx <= len(numbers) && m != nil
+//@   loop 0 invariant def: forall x: Int :: has(m, x) <==> (exists k in 0..$idx :: numbers[k] == x)
+
+//@ func (valueProjector).isSubProjection(p; p2)
+//@   tags C04, C10
+//@   assigns fresh-only
+//@   ensures[C04] def: result <==> subProj(p, p2)
+//@   loop 0 invariant b: 0 <= $idx && $idx <= len(p)
+//@   loop 0 invariant def: forall k in 0..$idx :: inProj(p2, p[k])
+
+//@ func (valueProjector).hasCommonIndices(p; p2)
+//@   tags C04, C10
+//@   assigns fresh-only
+//@   ensures[C04] def: result <==> meets(p, p2)
+//@   loop 0 invariant b: 0 <= $idx
+//@   loop 0 invariant sw: (cur(p) == p && cur(p2) == p2) || (cur(p) == p2 && cur(p2) == p)
+//@   loop 0 invariant def: forall k in 0..$idx :: !inProj(cur(p), cur(p2)[k])
+
+// ---- Values / projectedValues (value_values.go) ------------------------------------------------
+
+//@ func (Values).project(v; p)
+//@   tags C04, C10
+//@   pure
+//@   ensures[C04] def: result.p == p && result.v == v
+
+//@ func (projectedValues).get(pv; i)
+//@   tags C04, C10
+//@   pure
+//@   requires[C04] idx: 0 <= i && i < len(pv.p)
+//@   requires[C04] inb: 0 <= pv.p[i] && pv.p[i] < len(pv.v)
+//@   ensures[C04] def: result == pv.v[pv.p[i]]
+
+//@ func (projectedValues).project(pv; p)
+//@   tags C04, C10
+//@   assigns fresh-only
+//@   requires[C04] inb: projIn(p, len(pv.p))
+//@   ensures[C04] v: result.v == pv.v
+//@   ensures[C04] len: len(result.p) == len(p)
+//@   ensures[C04] def: forall k in 0..len(p) :: result.p[k] == pv.p[p[k]]
+
+//@ func (projectedValues).values(pv)
+//@   tags C04, C10
+//@   assigns fresh-only
+//@   requires[C04] inb: projIn(pv.p, len(pv.v))
+//@   ensures[C04] len: len(result) == len(pv.p)
+//@   ensures[C04] def: forall k in 0..len(pv.p) :: result[k] == pv.v[pv.p[k]]
+//@   ensures[C03] fr: len(result) > 0 ==> fresh(result)
+//@   loop 0 invariant b: 0 <= $idx && $idx <= len(pv.p) && len(v) == $idx && cap(v) == len(pv.p) && fresh(v)
+//@   loop 0 invariant def: forall k in 0..$idx :: v[k] == pv.v[pv.p[k]]
+
+//@ func (Values).equalValues(v; v2)
+//@   tags C04, C10
+//@   pure
+//@   requires nonnilVals(v)
+//@   ensures[C04] def: result <==> (len(v) == len(v2) && forall k in 0..len(v) :: eq(v[k], v2[k]))
+//@   loop 0 invariant b: 0 <= $idx && $idx <= len(v)
+//@   loop 0 invariant def: forall k in 0..$idx :: eq(v[k], v2[k])
+
+//@ func (projectedValues).EqualProjectedValues(pv; pv2)
+//@   tags C04, C10
+//@   pure
+//@   requires[C04] inb: projIn(pv.p, len(pv.v)) && projIn(pv2.p, len(pv2.v))
+//@   requires nonnilVals(pv.v)
+//@   ensures[C04] def: result <==> (len(pv.p) == len(pv2.p) && forall k in 0..len(pv.p) :: eq(pv.v[pv.p[k]], pv2.v[pv2.p[k]]))
+//@   loop 0 invariant b: 0 <= i && i <= len(pv.p)
+//@   loop 0 invariant def: forall k in 0..i :: eq(pv.v[pv.p[k]], pv2.v[pv2.p[k]])
+
+//@ spec tieAt(pv, pv2, k) = !less(pv.v[pv.p[k]], pv2.v[pv2.p[k]]) && !less(pv2.v[pv2.p[k]], pv.v[pv.p[k]])
+//@ func (projectedValues).Less(pv; pv2)
+//@   tags C04, C10
+//@   pure
+//@   requires[C04] inb: projIn(pv.p, len(pv.v)) && projIn(pv2.p, len(pv2.v))
+//@   requires nonnilVals(pv.v) && nonnilVals(pv2.v)
+//@   ensures[C04] lex: result <==> ((exists j in 0..len(pv.p) :: j < len(pv2.p) && less(pv.v[pv.p[j]], pv2.v[pv2.p[j]]) && forall k in 0..j :: tieAt(pv, pv2, k))
+//@       || (len(pv.p) < len(pv2.p) && forall k in 0..len(pv.p) :: tieAt(pv, pv2, k)))
+//@   loop 0 invariant b: 0 <= i && i <= max && max <= len(pv.p) && max <= len(pv2.p) && (max == len(pv.p) || max == len(pv2.p)) && l1 == len(pv.p) && l2 == len(pv2.p)
+//@   loop 0 invariant tie: forall k in 0..i :: tieAt(pv, pv2, k)
+
+// mapper: p[0] is read when isContiguous() holds, which it does vacuously for an empty projector, so
+// len(p) > 0 is a genuine precondition. Its only live caller, (*positionalRelation).groupBy, tests
+// len(p) == 0 first ((*positionalRelation).Project has no callers outside tests).
+//@ func (valueProjector).mapper(p)
+//@   tags C04, C10
+//@   assigns fresh-only
+//@   requires[C04] nonempty: len(p) > 0
+//@ func (valueProjector).mapper$1(el)
+//@   tags C04, C10
+//@   assigns fresh-only
+//@   requires[C04] row: el is rel.Values
+//@   requires[C04] inb: 0 <= a && a <= b && b <= len(el.(rel.Values))
+//@   ensures[C04] ty: result is rel.Values
+//@   ensures[C04] len: len(result.(rel.Values)) == b - a
+//@   ensures[C04] def: forall k in 0..b-a :: result.(rel.Values)[k] == el.(rel.Values)[a+k]
+//@ func (valueProjector).mapper$2(el)
+//@   tags C04, C10
+//@   assigns nothing
+//@   requires[C04] row: el is rel.Values
+//@   ensures[C04] ty: result is rel.projectedValues
+//@   ensures[C04] def: result.(rel.projectedValues).p == p && result.(rel.projectedValues).v == el.(rel.Values)
+
+// ---- NamesSlice helpers used by the join dispatch (value_tuple.go) -------------------------------
+// inProj/subProj/meets (60_join.spec) are generic in the element type: here the elements are names.
+
+//@ func (NamesSlice).intoSet(n)
+//@   tags C04, C10
+//@   assigns fresh-only
+//@   ensures[C04] nn: result != nil
+//@   ensures[C04] def: forall x: Str :: has(result, x) <==> inProj(n, x)
+//@   loop 0 invariant b: 0 <= $idx && $idx <= len(n) && m != nil
+//@   loop 0 invariant def: forall x: Str :: has(m, x) <==> (exists k in 0..$idx :: n[k] == x)
+
+//@ func (NamesSlice).hasIntersect(n; n2)
+//@   tags C04, C10
+//@   assigns fresh-only
+//@   ensures[C04] def: result <==> meets(n, n2)
+//@   loop 0 invariant sw: (cur(n) == n && cur(n2) == n2) || (cur(n) == n2 && cur(n2) == n)
+//@   loop 0 invariant b: 0 <= $idx
+//@   loop 0 invariant def: forall k in 0..$idx :: !inProj(cur(n), cur(n2)[k])
+
+//@ func (NamesSlice).intersect(n; n2)
+//@   tags C04, C10
+//@   assigns fresh-only
+//@   ensures[C04] def: forall x: Str :: inProj(result, x) <==> (inProj(n, x) && inProj(n2, x))
+//@   ensures[C03] fr: fresh(result)
+//@   loop 0 invariant sw: (cur(n) == n && cur(n2) == n2) || (cur(n) == n2 && cur(n2) == n)
+//@   loop 0 invariant b: 0 <= $idx && $idx <= len(cur(n2)) && fresh(intersects) && 0 <= len(intersects)
+//@   loop 0 invariant def: forall x: Str :: inProj(intersects, x) <==> (inProj(cur(n), x) && exists k in 0..$idx :: cur(n2)[k] == x)
+
+//@ func (NamesSlice).minus(n; n2)
+//@   tags C04, C10
+//@   assigns fresh-only
+//@   ensures[C04] def: forall x: Str :: inProj(result, x) <==> (inProj(n, x) && !inProj(n2, x))
+//@   ensures[C03] fr: fresh(result)
+//@   loop 0 invariant b: 0 <= $idx && $idx <= len(n) && fresh(names)
+//@   loop 0 invariant def: forall x: Str :: inProj(names, x) <==> (!inProj(n2, x) && exists k in 0..$idx :: n[k] == x)
+
+//@ func (NamesSlice).isSubset(n; n2)
+//@   tags C04, C10
+//@   assigns fresh-only
+//@   ensures[C04] def: result <==> subProj(n, n2)
+//@   loop 0 invariant b: 0 <= $idx && $idx <= len(n)
+//@   loop 0 invariant def: forall k in 0..$idx :: inProj(n2, n[k])
+
+// ---- createMode and the positional join bodies (value_set_relpos.go) ---------------------------------
+// CombineOp masks: OnlyOnLHS = 1, InBoth = 2, OnlyOnRHS = 4.
+// The key columns of each side are output either completely or not at all (every operator's
+// partitionNames guarantees it; otherwise createMode panics "partial key output").
+//@ func createMode(leftKey, rightKey, leftOutput, rightOutput)
+//@   tags C04, C10
+//@   assigns fresh-only
+//@   requires[C04] keylen: len(leftKey) == len(rightKey)
+//@   requires[C04] lwhole: wholeKey(leftKey, leftOutput)
+//@   requires[C04] rwhole: wholeKey(rightKey, rightOutput)
+//@   ensures[C04] bits: result == (subProj(leftOutput, leftKey) ? 0 : 1) + (subProj(rightOutput, rightKey) ? 0 : 4)
+//@       + ((meets(leftOutput, leftKey) != meets(rightOutput, rightKey)) ? 2 : 0)
+//@   ensures[C04] lempty: (subProj(leftOutput, leftKey) && !meets(leftOutput, leftKey)) ==> len(leftOutput) == 0
+//@   ensures[C04] rempty: (subProj(rightOutput, rightKey) && !meets(rightOutput, rightKey)) ==> len(rightOutput) == 0
+
+// Dispatch of (*positionalRelation).Join. D(r, r2, lk, rk, lo, ro) := { proj(l,lo) ++ proj(m,ro) | l in r, m in r2,
+// proj(l,lk) = proj(m,rk) } is the relational definition (property C04). Each body computes D only for
+// a certain SHAPE of (lo, ro); the shape is the body's precondition, so for every value of `mode` the
+// body chosen by the switch must be one whose shape holds (obligations pre@<body>.shape in Join):
+//   JoinKeepEverything         any shape (it is D literally)
+//   Join$1 = joinOneSide(r,..) ro empty:  { proj(l,lo) | l in r, exists m in r2 with equal key } = D(.., lo, [])
+//   Join$2 = joinOneSide(r2,..) lo empty
+//   JoinCommonOnly             one of lo/ro empty and the other a sub-list of its key (else it panics "invalid output value")
+//   JoinIfCommonExist          lo and ro empty: {()} if some pair matches, else {}
+// The five body contracts below are `trusted`; assumed about them: the frame (`assigns fresh-only` except the
+// lazily built index cache r.once/r.meta/meta.indices) and a single postcondition `width`: under its shape each body returns a non-nil
+// relation whose rows have len(leftOutput)+len(rightOutput) columns (needed only for the index safety of the
+// re-sugaring loop in Relation.Join). Their purpose is to generate the shape obligations.
+//@ func (*positionalRelation).JoinKeepEverything(r; r2, leftKey, rightKey, leftOutput, rightOutput)
+//@   tags C04
+//@   trusted
+//@   assigns fresh-only
+//@   modifies rel.positionalRelation, rel.positionalRelationMetadata
+//@   ensures width: result != nil && pwidth(result) == len(leftOutput) + len(rightOutput)
+//@ func (*positionalRelation).JoinCommonOnly(r; r2, leftKey, rightKey, leftOutput, rightOutput)
+//@   tags C04
+//@   trusted
+//@   assigns fresh-only
+//@   modifies rel.positionalRelation, rel.positionalRelationMetadata
+//@   requires[C04] shape: (len(leftOutput) == 0 || len(rightOutput) == 0)
+//@       && (len(leftOutput) == 0 ? subProj(rightOutput, rightKey) : subProj(leftOutput, leftKey))
+//@   ensures width: result != nil && pwidth(result) == len(leftOutput) + len(rightOutput)
+//@ func (*positionalRelation).JoinIfCommonExist(r; r2, leftKey, rightKey, leftOutput, rightOutput)
+//@   tags C04
+//@   trusted
+//@   assigns fresh-only
+//@   modifies rel.positionalRelation, rel.positionalRelationMetadata
+//@   requires[C04] shape: len(leftOutput) == 0 && len(rightOutput) == 0
+//@   ensures width: result != nil && pwidth(result) == len(leftOutput) + len(rightOutput)
+//@ func (*positionalRelation).Join$1(r2, leftKey, rightKey, leftOutput, rightOutput)
+//@   tags C04
+//@   trusted
+//@   assigns fresh-only
+//@   modifies rel.positionalRelation, rel.positionalRelationMetadata
+//@   requires[C04] shape: len(rightOutput) == 0
+//@   ensures width: result != nil && pwidth(result) == len(leftOutput) + len(rightOutput)
+//@ func (*positionalRelation).Join$2(r2, leftKey, rightKey, leftOutput, rightOutput)
+//@   tags C04
+//@   trusted
+//@   assigns fresh-only
+//@   modifies rel.positionalRelation, rel.positionalRelationMetadata
+//@   requires[C04] shape: len(leftOutput) == 0
+//@   ensures width: result != nil && pwidth(result) == len(leftOutput) + len(rightOutput)
+
+// Preconditions of Join (established by Relation.Join for all eight operators, see partitionNames below):
+//   keylen, lwhole, rwhole  createMode's own checks (otherwise it panics)
+//   nokeydup   the key columns are not output by both sides (Relation.Join panics on overlapping output names)
+//   oneside    a side that outputs only key columns (or nothing) while the other side outputs non-key
+//              columns outputs nothing: createMode then selects a one-sided body that ignores it
+//@ func (*positionalRelation).Join(r; r2, leftKey, rightKey, leftOutput, rightOutput)
+//@   tags C04, C10
+//@   assigns fresh-only
+//@   modifies rel.positionalRelation, rel.positionalRelationMetadata
+//@   requires[C04] keylen: len(leftKey) == len(rightKey)
+//@   requires[C04] lwhole: wholeKey(leftKey, leftOutput)
+//@   requires[C04] rwhole: wholeKey(rightKey, rightOutput)
+//@   requires[C04] nokeydup: noKeyDup(leftKey, rightKey, leftOutput, rightOutput)
+//@   requires[C04] onesideL: oneSide(rightKey, leftKey, rightOutput, leftOutput)
+//@   requires[C04] onesideR: oneSide(leftKey, rightKey, leftOutput, rightOutput)
+//@   ensures[C04] width: result != nil && pwidth(result) == len(leftOutput) + len(rightOutput)
+
+// ---- partitionNames of the eight operators (expr_rel.go; `join` in ops_rel.go is rel.init$8) -----------------
+// heading: leftOut ++ rightOut is exactly the documented output heading of the operator.
+// sides/disjoint/lwhole/rwhole/nokeydup/onesideL/onesideR: what Relation.Join needs (its preconditions).
+//@ func init$8(left, right, common)      // <&>  (var join)
+//@   tags C04, C10
+//@   assigns fresh-only
+//@   requires[C04] common: isCommon(left, right, common)
+//@   returns (leftOut, rightOut)
+//@   ensures[C04] heading: forall x: Str :: (inProj(leftOut, x) || inProj(rightOut, x)) <==> (inProj(left, x) || inProj(right, x))
+//@   ensures[C04] sides: subProj(leftOut, left) && subProj(rightOut, right)
+//@   ensures[C04] disjoint: !meets(leftOut, rightOut)
+//@   ensures[C04] lwhole: wholeKey(common, leftOut)
+//@   ensures[C04] rwhole: wholeKey(common, rightOut)
+//@   ensures[C04] nokeydup: noKeyDup(common, common, leftOut, rightOut)
+//@   ensures[C04] onesideL: oneSide(common, common, rightOut, leftOut)
+//@   ensures[C04] onesideR: oneSide(common, common, leftOut, rightOut)
+//@ func NewComposeExpr$2(left, right, common)      // <->
+//@   tags C04, C10
+//@   assigns fresh-only
+//@   requires[C04] common: isCommon(left, right, common)
+//@   returns (leftOut, rightOut)
+//@   ensures[C04] heading: forall x: Str :: (inProj(leftOut, x) || inProj(rightOut, x)) <==> ((inProj(left, x) || inProj(right, x)) && !inProj(common, x))
+//@   ensures[C04] sides: subProj(leftOut, left) && subProj(rightOut, right)
+//@   ensures[C04] disjoint: !meets(leftOut, rightOut)
+//@   ensures[C04] lwhole: wholeKey(common, leftOut)
+//@   ensures[C04] rwhole: wholeKey(common, rightOut)
+//@   ensures[C04] nokeydup: noKeyDup(common, common, leftOut, rightOut)
+//@   ensures[C04] onesideL: oneSide(common, common, rightOut, leftOut)
+//@   ensures[C04] onesideR: oneSide(common, common, leftOut, rightOut)
+//@ func NewJoinCommonExpr$2(left, right, common)      // -&-
+//@   tags C04, C10
+//@   assigns fresh-only
+//@   requires[C04] common: isCommon(left, right, common)
+//@   returns (leftOut, rightOut)
+//@   ensures[C04] heading: forall x: Str :: (inProj(leftOut, x) || inProj(rightOut, x)) <==> (inProj(common, x))
+//@   ensures[C04] sides: subProj(leftOut, left) && subProj(rightOut, right)
+//@   ensures[C04] disjoint: !meets(leftOut, rightOut)
+//@   ensures[C04] lwhole: wholeKey(common, leftOut)
+//@   ensures[C04] rwhole: wholeKey(common, rightOut)
+//@   ensures[C04] nokeydup: noKeyDup(common, common, leftOut, rightOut)
+//@   ensures[C04] onesideL: oneSide(common, common, rightOut, leftOut)
+//@   ensures[C04] onesideR: oneSide(common, common, leftOut, rightOut)
+//@ func NewJoinExistsExpr$2(left, right, common)      // ---
+//@   tags C04, C10
+//@   assigns fresh-only
+//@   requires[C04] common: isCommon(left, right, common)
+//@   returns (leftOut, rightOut)
+//@   ensures[C04] heading: forall x: Str :: (inProj(leftOut, x) || inProj(rightOut, x)) <==> (false)
+//@   ensures[C04] sides: subProj(leftOut, left) && subProj(rightOut, right)
+//@   ensures[C04] disjoint: !meets(leftOut, rightOut)
+//@   ensures[C04] lwhole: wholeKey(common, leftOut)
+//@   ensures[C04] rwhole: wholeKey(common, rightOut)
+//@   ensures[C04] nokeydup: noKeyDup(common, common, leftOut, rightOut)
+//@   ensures[C04] onesideL: oneSide(common, common, rightOut, leftOut)
+//@   ensures[C04] onesideR: oneSide(common, common, leftOut, rightOut)
+//@ func NewRightMatchExpr$2(left, right, common)      // -&>
+//@   tags C04, C10
+//@   assigns fresh-only
+//@   requires[C04] common: isCommon(left, right, common)
+//@   returns (leftOut, rightOut)
+//@   ensures[C04] heading: forall x: Str :: (inProj(leftOut, x) || inProj(rightOut, x)) <==> (inProj(right, x))
+//@   ensures[C04] sides: subProj(leftOut, left) && subProj(rightOut, right)
+//@   ensures[C04] disjoint: !meets(leftOut, rightOut)
+//@   ensures[C04] lwhole: wholeKey(common, leftOut)
+//@   ensures[C04] rwhole: wholeKey(common, rightOut)
+//@   ensures[C04] nokeydup: noKeyDup(common, common, leftOut, rightOut)
+//@   ensures[C04] onesideL: oneSide(common, common, rightOut, leftOut)
+//@   ensures[C04] onesideR: oneSide(common, common, leftOut, rightOut)
+//@ func NewLeftMatchExpr$2(left, right, common)      // <&-
+//@   tags C04, C10
+//@   assigns fresh-only
+//@   requires[C04] common: isCommon(left, right, common)
+//@   returns (leftOut, rightOut)
+//@   ensures[C04] heading: forall x: Str :: (inProj(leftOut, x) || inProj(rightOut, x)) <==> (inProj(left, x))
+//@   ensures[C04] sides: subProj(leftOut, left) && subProj(rightOut, right)
+//@   ensures[C04] disjoint: !meets(leftOut, rightOut)
+//@   ensures[C04] lwhole: wholeKey(common, leftOut)
+//@   ensures[C04] rwhole: wholeKey(common, rightOut)
+//@   ensures[C04] nokeydup: noKeyDup(common, common, leftOut, rightOut)
+//@   ensures[C04] onesideL: oneSide(common, common, rightOut, leftOut)
+//@   ensures[C04] onesideR: oneSide(common, common, leftOut, rightOut)
+//@ func NewRightResidueExpr$2(left, right, common)      // -->
+//@   tags C04, C10
+//@   assigns fresh-only
+//@   requires[C04] common: isCommon(left, right, common)
+//@   returns (leftOut, rightOut)
+//@   ensures[C04] heading: forall x: Str :: (inProj(leftOut, x) || inProj(rightOut, x)) <==> (inProj(right, x) && !inProj(common, x))
+//@   ensures[C04] sides: subProj(leftOut, left) && subProj(rightOut, right)
+//@   ensures[C04] disjoint: !meets(leftOut, rightOut)
+//@   ensures[C04] lwhole: wholeKey(common, leftOut)
+//@   ensures[C04] rwhole: wholeKey(common, rightOut)
+//@   ensures[C04] nokeydup: noKeyDup(common, common, leftOut, rightOut)
+//@   ensures[C04] onesideL: oneSide(common, common, rightOut, leftOut)
+//@   ensures[C04] onesideR: oneSide(common, common, leftOut, rightOut)
+//@ func NewLeftResidueExpr$2(left, right, common)      // <--
+//@   tags C04, C10
+//@   assigns fresh-only
+//@   requires[C04] common: isCommon(left, right, common)
+//@   returns (leftOut, rightOut)
+//@   ensures[C04] heading: forall x: Str :: (inProj(leftOut, x) || inProj(rightOut, x)) <==> (inProj(left, x) && !inProj(common, x))
+//@   ensures[C04] sides: subProj(leftOut, left) && subProj(rightOut, right)
+//@   ensures[C04] disjoint: !meets(leftOut, rightOut)
+//@   ensures[C04] lwhole: wholeKey(common, leftOut)
+//@   ensures[C04] rwhole: wholeKey(common, rightOut)
+//@   ensures[C04] nokeydup: noKeyDup(common, common, leftOut, rightOut)
+//@   ensures[C04] onesideL: oneSide(common, common, rightOut, leftOut)
+//@   ensures[C04] onesideR: oneSide(common, common, leftOut, rightOut)
+
+// ---- Relation.Join (value_set_rel.go) ------------------------------------------------------------------
+
+//@ func (Relation).getIndices(r; names)
+//@   tags C04, C10
+//@   assigns fresh-only
+//@   requires[C04] known: subProj(names, r.attrs)
+//@   ensures[C04] len: len(result) == len(names)
+//@   ensures[C04] def: forall k in 0..len(names) :: 0 <= result[k] && result[k] < len(r.attrs) && r.attrs[result[k]] == names[k]
+//@   ensures[C03] fr: fresh(result)
+//@   loop 0 invariant b: 0 <= $idx && $idx <= len(r.attrs) && mapping != nil
+//@   loop 0 invariant dom: forall x: Str :: has(mapping, x) <==> (exists j in 0..$idx :: r.attrs[j] == x)
+//@   loop 0 invariant val: forall x: Str :: has(mapping, x) ==> (0 <= mapping[x] && mapping[x] < $idx && r.attrs[mapping[x]] == x)
+//@   loop 1 invariant b: 0 <= $idx && $idx <= len(names) && len(indices) == $idx && cap(indices) == len(names) && fresh(indices) && mapping != nil
+//@   loop 1 invariant dom: forall x: Str :: has(mapping, x) <==> inProj(r.attrs, x)
+//@   loop 1 invariant val: forall x: Str :: has(mapping, x) ==> (0 <= mapping[x] && mapping[x] < len(r.attrs) && r.attrs[mapping[x]] == x)
+//@   loop 1 invariant def: forall k in 0..$idx :: 0 <= indices[k] && indices[k] < len(r.attrs) && r.attrs[indices[k]] == names[k]
+
+// thin contracts of what the re-sugaring loop of Relation.Join touches
+//@ func (*positionalRelation).IsEmpty(r)
+//@   tags C04, C10
+//@   assigns nothing
+//@   requires r != nil
+//@ func (*positionalRelation).IsLiteralTrue(r)
+//@   tags C04, C10
+//@   assigns fresh-only
+//@   requires r != nil
+// assumed (frozen iteration is opaque): the enumerator yields the rows of r, one rel.Values of r's width each
+//@ func (*positionalRelation).Range(r)
+//@   tags C04
+//@   trusted
+//@   assigns fresh-only
+//@   requires r != nil
+//@   ensures result != nil && fresh(result) && ewidth(result) == pwidth(r)
+//@ func (*positionalRelationValuesEnumerator).Next(e)
+//@   tags C04
+//@   trusted
+//@   assigns fresh-only
+//@   requires e != nil
+//@ func (*positionalRelationValuesEnumerator).Values(e)
+//@   tags C04
+//@   trusted
+//@   assigns nothing
+//@   requires e != nil
+//@   ensures len(result) == ewidth(e) && nonnilVals(result)
+//@ func NewSetBuilder()
+//@   tags C10
+//@   assigns fresh-only
+//@ func NewAttr(name, value)
+//@   tags C10
+//@   pure
+//@   ensures result.Name == name && result.Value == value
+// NewTuple converts the "@" value of a sugar-shaped pair with `.(Number)`: a genuine precondition.
+//@ spec sugarName(n) = n == "@char" || n == "@byte" || n == "@item"
+// (NewTuple may swap attrs[0] and attrs[1] in place: the rows of []Attr are exempt from its assumed frame)
+//@ func NewTuple(attrs)
+//@   tags C10
+//@   trusted
+//@   assigns fresh-only
+//@   modifies HS|rel.Attr
+//@   requires[C10] num: (len(attrs) == 2 && attrs[0].Name == "@" && sugarName(attrs[1].Name)) ==> attrs[0].Value is rel.Number
+//@   requires[C10] num2: (len(attrs) == 2 && attrs[1].Name == "@" && sugarName(attrs[0].Name)) ==> attrs[1].Value is rel.Number
+//@   requires[C10] chr: (len(attrs) == 2 && attrs[0].Name == "@" && (attrs[1].Name == "@char" || attrs[1].Name == "@byte")) ==> attrs[1].Value is rel.Number
+//@   ensures result != nil
+
+//@ func (Relation).Join(r; r2, keys, leftOutput, rightOutput)
+//@   tags C04, C10
+//@   requires[C04] valid: validRel(r) && validRel(r2)
+//@   requires[C04] common: isCommon(r.attrs, r2.attrs, keys) && distinctElems(keys)
+//@   requires[C04] sides: subProj(leftOutput, r.attrs) && subProj(rightOutput, r2.attrs)
+//@   requires[C04] disjoint: !meets(leftOutput, rightOutput)
+//@   requires[C04] lwhole: wholeKey(keys, leftOutput)
+//@   requires[C04] rwhole: wholeKey(keys, rightOutput)
+//@   requires[C04] nokeydup: noKeyDup(keys, keys, leftOutput, rightOutput)
+//@   requires[C04] onesideL: oneSide(keys, keys, rightOutput, leftOutput)
+//@   requires[C04] onesideR: oneSide(keys, keys, leftOutput, rightOutput)
+//@   loop 0 invariant b: 0 <= i && i <= count && len(projection) == i && cap(projection) == count && count == len(leftOutput) + len(rightOutput) && fresh(projection)
+//@   loop 0 invariant sep: projection.ref != leftKey.ref && projection.ref != rightKey.ref && projection.ref != leftOutputProj.ref && projection.ref != rightOutputProj.ref
+//@   loop 0 invariant lens: len(leftKey) == len(keys) && len(rightKey) == len(keys) && len(leftOutputProj) == len(leftOutput) && len(rightOutputProj) == len(rightOutput)
+//@   loop 0 invariant id: (forall k in 0..len(r.p) :: r.p[k] == k) && (forall k in 0..len(r2.p) :: r2.p[k] == k)
+//@   loop 0 invariant lk: forall k in 0..len(keys) :: 0 <= leftKey[k] && leftKey[k] < len(r.attrs) && r.attrs[leftKey[k]] == keys[k]
+//@   loop 0 invariant rk: forall k in 0..len(keys) :: 0 <= rightKey[k] && rightKey[k] < len(r2.attrs) && r2.attrs[rightKey[k]] == keys[k]
+//@   loop 0 invariant lo: forall k in 0..len(leftOutput) :: 0 <= leftOutputProj[k] && leftOutputProj[k] < len(r.attrs) && r.attrs[leftOutputProj[k]] == leftOutput[k]
+//@   loop 0 invariant ro: forall k in 0..len(rightOutput) :: 0 <= rightOutputProj[k] && rightOutputProj[k] < len(r2.attrs) && r2.attrs[rightOutputProj[k]] == rightOutput[k]
+//@   loop 1 invariant id: (forall k in 0..len(r.p) :: r.p[k] == k) && rows != nil && pwidth(rows) == count && count == len(leftOutput) + len(rightOutput) && ewidth(i) == pwidth(rows) && i != nil
